@@ -291,7 +291,10 @@ def gen_model(rng: core.Rng, idx: int) -> Dict[str, Any]:
     int column plus 0..2 further scalar fields, 0..2 Optional single references and 0..2 List collections to any class
     of the model (own class and own hierarchy included for single references).  Excluded (C06's known generator defects):
     List of the own class (C06-a), models without a builtin column (C06-b), x / x_id name pairs, reserved names."""
-    ncls = rng.randint(2, 5)
+    # every third model: names[0] is ALTERNATIVELY MAPPED (a generated AlternativeMapping with a renamed column), names[1] derives
+    # from it (a DAO below an alternatively mapped DAO) and refers to names[2], which refers back: a cycle through the subclass
+    altm = idx % 3 == 1
+    ncls = rng.randint(3 if altm else 2, 5)
     names = [f"G{idx}c{i}" for i in range(ncls)]
     base: Dict[str, Any] = {}
     depth: Dict[str, int] = {}
@@ -302,10 +305,12 @@ def gen_model(rng: core.Rng, idx: int) -> Dict[str, Any]:
     for i, n in enumerate(names):
         cands = [m for m in names[(1 if forced and i >= 2 else 0):i] if depth[m] < 2]
         base[n] = rng.choice(cands) if cands and rng.chance(0.45) else None
-        if forced and i == 1:
+        if (forced or altm) and i == 1:
             base[n] = names[0]
+        if altm and i == 2:
+            base[n] = None
         depth[n] = 0 if base[n] is None else depth[base[n]] + 1
-        if base[n] is not None and ((forced and i == 1) or rng.chance(0.3)):
+        if base[n] is not None and not altm and ((forced and i == 1) or rng.chance(0.3)):
             # an UNMAPPED class between n and its mapped base (not handed to ORMatic); may carry a column of its own
             umid[n] = {"name": f"U{idx}c{i}", "fields": [[f"u{i}", "scalar", "int"]] if rng.chance(0.5) else []}
     own: Dict[str, List[Tuple[str, str, str]]] = {}
@@ -326,6 +331,10 @@ def gen_model(rng: core.Rng, idx: int) -> Dict[str, Any]:
         for j in range(rng.randint(0, 2)):
             tg = [m for m in names if m != n]
             fl.append((f"l{i}_{j}", "many", rng.choice(tg)))
+        if altm and i == 1:
+            fl.append(("rsub", "one", names[2]))       # relationship declared on the subclass of the alternatively mapped class
+        if altm and i == 2:
+            fl.append(("rback", "one", names[1]))      # ... and the way back
         own[n] = fl
         # object truthiness: container-like classes (__len__ over a collection / JSON list) and classes with __bool__ over a scalar
         if rng.chance(0.6):
@@ -337,13 +346,15 @@ def gen_model(rng: core.Rng, idx: int) -> Dict[str, Any]:
                 falsy[n] = ["bool", rng.choice(bools)]
     order = list(names)
     rng.shuffle(order)      # the order in which the classes are handed to ClassDiagram / ORMatic: any order (280300b orders the output)
-    return {"idx": idx, "names": names, "base": base, "own": own, "required": required, "falsy": falsy, "umid": umid, "order": order}
+    return {"idx": idx, "names": names, "base": base, "own": own, "required": required, "falsy": falsy, "umid": umid, "order": order,
+            "alt": names[0] if altm else None}
 
 
 def model_source(md) -> str:
     dflt = {"int": "0", "float": "0.0", "str": "''", "bool": "False", "Optional[float]": "None", "Optional[int]": "None",
             "List[str]": "field(default_factory=list)"}
-    out = ["from __future__ import annotations", "from dataclasses import dataclass, field", "from typing import List, Optional", "", ""]
+    out = ["from __future__ import annotations", "from dataclasses import dataclass, field", "from typing import List, Optional",
+           "from krrood.ormatic.dao import AlternativeMapping", "", ""]
     for n in md["names"]:
         parent = md["base"][n]
         u = md.get("umid", {}).get(n)
@@ -369,6 +380,23 @@ def model_source(md) -> str:
             how, f = md["falsy"][n]
             out += ["", f"    def __len__(self):", f"        return len(self.{f})"] if how == "len" else ["", f"    def __bool__(self):", f"        return bool(self.{f})"]
         out += ["", ""]
+    if md.get("alt"):
+        a = md["alt"]
+        fl = [tuple(x) for x in md["own"][a]]
+        out.append("@dataclass")
+        out.append(f"class {a}Mapping(AlternativeMapping[{a}]):")
+        for j, (f, kind, t) in enumerate(fl):
+            mf = ("stored_" + f) if j == 0 else f            # the first column is renamed by the mapping
+            if kind == "scalar":
+                out.append(f"    {mf}: {t}")
+            elif kind == "one":
+                out.append(f"    {mf}: {t}" if f in md.get("required", []) else f"    {mf}: Optional[{t}]")
+            else:
+                out.append(f"    {mf}: List[{t}]")
+        args = ", ".join(f"obj.{f}" for f, _k, _t in fl)
+        back = ", ".join(f"self.{('stored_' + f) if j == 0 else f}" for j, (f, _k, _t) in enumerate(fl))
+        out += ["", "    @classmethod", "    def create_instance(cls, obj):", f"        return cls({args})", "",
+                "    def create_from_dao(self):", f"        return {a}({back})", "", ""]
     return "\n".join(out)
 
 
@@ -390,7 +418,10 @@ def install_model(md, workdir) -> None:
     # classes are handed over in the (random) order stored with the model; since repo commit 280300b the generated module is
     # ordered by the first MAPPED class of each MRO, also across an unmapped intermediate class
     by_name = {c.__name__: c for c in classes}
-    o = ORMatic(ClassDiagram([by_name[n] for n in md.get("order", md["names"])]))
+    alt = md.get("alt")
+    mappings = [getattr(mod, alt + "Mapping")] if alt else []
+    o = ORMatic(ClassDiagram([by_name[n] for n in md.get("order", md["names"])]), alternative_mappings=mappings) if alt else \
+        ORMatic(ClassDiagram([by_name[n] for n in md.get("order", md["names"])]))
     o.make_all_tables()
     with open(workdir / f"{modname}_dao.py", "w") as f:
         o.to_sqlalchemy_file(f)
@@ -402,7 +433,13 @@ def install_model(md, workdir) -> None:
         return (mro(base[n]) if base[n] else []) + [n]
     subs_of = {n: [m for m in names if n in mro(m)] for n in names}
     c04.MODEL_MODULE, c04.INTERFACE_MODULE = modname, modname + "_dao"
-    c04.ALT, c04.ALTBASE, c04.SUB = {}, set(), subs_of
+    alt = md.get("alt")
+    c04.ALT = {alt: alt + "Mapping"} if alt else {}
+    c04.ALTBASE = {n for n in names if alt and n != alt and alt in mro(n)}
+    # two or more levels below the alternatively mapped class: from_dao consults only the immediate base DAO, the column the mapping
+    # renamed (position 0 of the scalars, base class first) comes back as the constructor default 0   (finding C04-d)
+    c04.ALTGC = {n: [(0, 0)] for n in c04.ALTBASE if base[n] != alt}
+    c04.SUB = subs_of
     umid = md.get("umid", {})
 
     def decl(c):          # fields declared between c's mapped base and c (unmapped intermediate first), dataclass order
@@ -418,7 +455,13 @@ def install_model(md, workdir) -> None:
             raise RuntimeError(f"{n}: no relationship generated for reference fields {sorted(missing)}")
         c04.REFS[n] = [(k, info[n][k][0], info[n][k][1], True) for k in keys if k in info[n]]
     c04.SCAL["_Holder"], c04.REFS["_Holder"] = [], [("items", "many", "_Holder", False)]
-    c04.CLASS_ID = {n: i + 1 for i, n in enumerate(names + ["_Holder"])}
+    extra = []
+    if alt:      # the mapping object can show up in a result (finding C04-a): same columns (first one renamed), same relationships
+        sc = list(c04.SCAL[alt])
+        c04.SCAL[alt + "Mapping"] = ["stored_" + sc[0]] + sc[1:]
+        c04.REFS[alt + "Mapping"] = list(c04.REFS[alt])
+        extra = [alt + "Mapping"]
+    c04.CLASS_ID = {n: i + 1 for i, n in enumerate(names + extra + ["_Holder"])}
     c04.ROOT_KINDS = list(names)
     # truthiness is inherited: a class is falsy-capable through the nearest definition on its MRO
     c04.FALSY_FIELDS = {}
@@ -476,7 +519,7 @@ def _worker_main(argv) -> int:
     d = core.WORK / prop / "genmodels"
     d.mkdir(parents=True, exist_ok=True)
     rng = core.Rng(seed).fork(1000 + idx)
-    md = replay["model"] if replay else gen_model(rng.fork(0), idx)
+    md = replay["class_model"] if replay else gen_model(rng.fork(0), idx)
     out = {"model": md, "cases": []}
     try:
         install_model(md, d)
@@ -506,7 +549,7 @@ def _worker_main(argv) -> int:
         return prop == "C04" or not m["ft"]["repeated_elems"]
 
     shrunk = 0
-    todo = [(replay["case"], "replay")] if replay else [(None, f"model{idx}:gen:{i}") for i in range(ncases)]
+    todo = [(replay["case"], replay.get("_origin", "replay"))] if replay else [(None, f"model{idx}:gen:{i}") for i in range(ncases)]
     for i, (dsc, org) in enumerate(todo):
         if dsc is None:
             dsc = c04.gen_graph(rng.fork(i + 1), 10) if prop == "C04" else gen_graph(rng.fork(i + 1), 10)
@@ -607,8 +650,9 @@ def decide(rep: Report, m: Dict[str, Any], v, model_ok: bool, inst: Dict[str, in
         altc = ft["altcycle"] and not (frag & 1)
         # exact instance: the implementation fails exactly as the faithful model predicts
         # (C05-a is fixed by 22a99b9: a lost self-referential link is a VIOLATION again, not an instance)
-        if code == 2 and not ft["selfref_shared"] and (ft["repeated_elems"] or altc):
-            for k, on in (("C05-b", ft["repeated_elems"]), ("C04-a", altc)):
+        altgc = bool(ft.get("altgc_objs")) and not (frag & 1)
+        if code == 2 and not ft["selfref_shared"] and (ft["repeated_elems"] or altc or altgc):
+            for k, on in (("C05-b", ft["repeated_elems"]), ("C04-a", altc), ("C04-d", altgc)):
                 inst[k] += 1 if on else 0
             return
         if altc and "Mapping" in (res["py_iso"] or "") and not ft["selfref_shared"]:
@@ -683,8 +727,9 @@ def run(tier: str, seed: int, replay=None) -> int:
     findings = core.load_findings(PROP)
     descrs: List[dict] = []
     origin: List[str] = []
+    corpus_models: List[Any] = []
     nmodels, per_model = 0, 0
-    replay_model = replay is not None and "model" in replay
+    replay_model = replay is not None and "class_model" in replay
     if replay_model:
         pass      # a case over a generated class model: re-run by a worker that re-installs the stored model
     elif replay is not None:
@@ -692,8 +737,11 @@ def run(tier: str, seed: int, replay=None) -> int:
     else:
         cdir = core.VERIF / "corpus" / PROP
         for f in sorted(cdir.glob("*.json")) if cdir.is_dir() else []:
-            c = json.loads(f.read_text())["case"]
-            if isinstance(c, dict) and "objs" in c:
+            w = json.loads(f.read_text())
+            c = w["case"]
+            if "class_model" in w:
+                corpus_models.append(f)
+            elif isinstance(c, dict) and "objs" in c:
                 descrs.append(c)
                 origin.append(f"corpus/{PROP}/{f.name}")
         rng = core.Rng(seed).fork(5)
@@ -713,7 +761,11 @@ def run(tier: str, seed: int, replay=None) -> int:
     if replay_model:
         rf = gdir / "replay_in.json"
         rf.write_text(json.dumps(replay))
-        procs.append(("replay", gdir / "out_replay.json", spawn_worker(PROP, seed, int(replay["model"]["idx"]), 1, model_ok, gdir / "out_replay.json", rf)))
+        procs.append(("replay", gdir / "out_replay.json", spawn_worker(PROP, seed, int(replay["class_model"]["idx"]), 1, model_ok, gdir / "out_replay.json", rf)))
+    for f in corpus_models:       # witnesses over generated class models: re-installed and run by a worker
+        w = json.loads(f.read_text())
+        outw = gdir / f"out_corpus_{f.stem}.json"
+        procs.append((f"corpus:{f.name}", outw, spawn_worker(PROP, seed, int(w["class_model"]["idx"]), 1, model_ok, outw, f)))
     for j in range(nmodels):
         outf = gdir / f"out_{j}.json"
         procs.append((j, outf, spawn_worker(PROP, seed, j, per_model, model_ok, outf)))
@@ -759,7 +811,7 @@ def run(tier: str, seed: int, replay=None) -> int:
         return rep.finish()
     codes = dict(zip(idx, vals))
 
-    inst = {"C05-b": 0, "C04-a": 0, "C04-c": 0,
+    inst = {"C05-b": 0, "C04-a": 0, "C04-c": 0, "C04-d": 0,
             "_c04c_open": any(f.fid == "C04-c" and f.kind == "open" for f in findings)}
     tallies = {"in_F": 0, "stale": 0}
     bad: List[Tuple[dict, str]] = []
@@ -795,7 +847,7 @@ def run(tier: str, seed: int, replay=None) -> int:
                               "Session.get in a new Session, from_dao; compared with the input by canonical form and by python bisimulation"}
         if m.get("generated"):
             rec["model_source"] = m.get("source")
-            rec["model"] = m.get("model")     # ./check C05 --replay <this file> re-installs the model in a worker and re-runs the case
+            rec["class_model"] = m.get("model")     # ./check C05 --replay <this file> re-installs the model in a worker and re-runs the case
             rec["python"] = ("# generated class model: save model_source as a module, generate its layer with ORMatic(ClassDiagram(classes)), "
                              "then build the graph in 'case' (objs[i].c = class, s = scalar kwargs, r = reference fields by object index), "
                              "to_dao -> add/commit -> new Session.get -> from_dao")
